@@ -26,7 +26,7 @@ pub fn plan(prop: &str) -> Vec<PlanEntry> {
         "C05" => vec![p("rc-weak", 8), p("dir-t3", 8), p("rc-mixed", 2), p("dir-t7", 2), p("chain-weak", 1)],
         "C06" => vec![p("chain", 1)],
         "C07" => vec![p("chain-stack", 1)],
-        "C08" => vec![p("rc-cells", 1)],
+        "C08" => vec![p("rc-cells", 2), p("dir-c", 1)],
         "C09" => vec![p("rc-wcells", 2), p("dir-w", 2)],
         "C10" => vec![p("rc-bulk", 1)],
         "C12" => vec![p("agesweep", 2), p("rc-mixed", 1), p("dir-t6", 1)],
@@ -430,6 +430,7 @@ pub fn main_check(prop: &str, tier: &str) -> i32 {
     let verif_seed = env_u64("VERIF_SEED", 1);
     let jobs = env_u64("VERIF_JOBS", 16).max(1);
     let quick = tier != "thorough";
+    crate::gen::DEEP.store(!quick, std::sync::atomic::Ordering::SeqCst);
     let max_runs = if quick { env_u64("VERIF_RUNS", quick_runs(prop)) } else { env_u64("VERIF_RUNS", u64::MAX) };
     let budget = env_u64("VERIF_BUDGET_S", if quick { 600 } else { 900 });
     let deadline = Some(t0 + std::time::Duration::from_secs(budget));
